@@ -269,6 +269,64 @@ def gen_cases(tier):
                     tr.append(f"{inc},{dec},{1 if rr.randrange(40) == 0 else 0}")
                 trs.append(" ".join(tr))
             add(f"updown {w} {rv}", trs)
+    # Counter usage variants: {inc only, dec only, both, neither} x call-site scopes x limits x start x load kinds
+    def vtrace(rr, w, e, n, dyn=False, p_act=0.5):
+        tr = []
+        mode = rr.randrange(3)
+        for t in range(n):
+            if rr.randrange(16) == 0:
+                mode = rr.randrange(3)
+            pa = (0.85, 0.15, 0.5)[mode]          # busy / mostly idle / mixed strobes
+            inc = int(rr.random() < pa); dec = int(rr.random() < pa); en = int(rr.random() < 0.6)
+            ld = int(rr.randrange(17) == 0)
+            lv = rr.randrange(max(1, e)) if w else 0
+            c = f"{inc},{dec},{en},{ld},{hx(lv)}"
+            if dyn:
+                c += f",{hx(e)}"
+            tr.append(c)
+        return " ".join(tr)
+    variants = [(0, 0)] + [(b, sc) for b in (1, 2, 3) for sc in range(6)]
+    vi = 0
+    def add_cntv(ctor, E, e, w, rvs, dyn=False):
+        nonlocal vi
+        for (b, sc) in variants:
+            ldks = (0, 1, 2, 3) if thorough else ((vi % 4),)
+            for ldk in ldks:
+                for rv in (rvs if thorough and E <= 16 else (rvs[vi % len(rvs)],)):
+                    vi += 1
+                    rr = rng_for("cntv", ctor * 10**9 + E * 10000 + rv % 97 * 100 + b * 24 + sc * 4 + ldk)
+                    n = min(2 * e + 12, 70)
+                    add(f"cntv {ctor} {E} {rv} {b} {sc} {ldk}", [vtrace(rr, w, e, n, dyn) for _ in range(2 if not thorough else 4)])
+    for e in [1, 2, 3, 5, 8, 11, 16, 17, 255, 256, 65535, 65536] + ([6, 7, 31, 32, 33, 100, 1000, 1024] if thorough else []):
+        w = e.bit_length() if (e & (e - 1)) else e.bit_length() - 1
+        add_cntv(0, e, e, w, sorted({0, e - 1, e // 2}))
+    for w in [1, 2, 3, 4, 8, 16] + ([5, 6, 12, 32, 63] if thorough else []):
+        add_cntv(1, w, 1 << w, w, sorted({0, (1 << min(w, 60)) - 1}))   # decimal parameters stay below OCaml's max_int
+    for w in [1, 2, 3, 5] + ([8] if thorough else []):
+        for e in sorted({1, 2, 3, (1 << w) - 1, (1 << w) // 2 + 1} & set(range(1, 1 << w))):
+            add_cntv(2, w, e, w, [0], dyn=True)
+    # Adder<UInt>, uintToThermometric(in, size_t), CrcState with mixed word widths
+    for w in [1, 2, 3, 4, 8, 16, 33, 64, 65, 130]:
+        for k in (1, 2, 3, 5, 8):
+            rr = rng_for("adder", w * 100 + k)
+            if w * k <= 9:
+                import itertools
+                ops = [" ".join(hx(v) for v in t) for t in itertools.product(range(1 << w), repeat=k)]
+            else:
+                V3 = operand_values(w, rr, 8, 4)
+                ops = [" ".join(hx(rr.choice(V3) if rr.randrange(2) else rr.getrandbits(w)) for _ in range(k)) for _ in range(NR)]
+            add(f"adder {w} {k}", ops)
+    for w in range(2, 7):
+        for mx in sorted({1, 2, (1 << w) // 2, (1 << w) - 2, (1 << w) - 1}):
+            if 1 <= mx <= (1 << w) - 1:
+                add(f"thermom {w} {mx}", [hx(v) for v in range(1 << w)])
+    for (cw, ws) in [(8, (4, 4)), (8, (4, 4, 8)), (8, (1, 7)), (16, (8, 16)), (16, (3, 5, 8)), (5, (11, 5)), (32, (8, 32, 16)), (32, (1, 2, 3, 4)), (7, (9, 2))]:
+        rr = rng_for("crcmx", cw * 1000 + sum(ws) * 10 + len(ws))
+        ops = []
+        for _ in range(NR):
+            poly = rr.getrandbits(cw) | 1; init = rr.choice([0, (1 << cw) - 1, rr.getrandbits(cw)]); xo = rr.choice([0, (1 << cw) - 1, rr.getrandbits(cw)])
+            ops.append(" ".join([hx(poly), hx(init), hx(xo), str(rr.randrange(2)), str(rr.randrange(2))] + [hx(rr.getrandbits(d)) for d in ws]))
+        add(f"crcmx {cw} " + " ".join(str(d) for d in ws), ops)
     return groups
 
 # ----------------------------------------------------------------------------- oracles (mathematical definitions)
@@ -414,6 +472,43 @@ def oracle(prim, p, ops, out):
             else:
                 prev_expect = None
         return True
+    if prim == "cntv":
+        # definition: a counter modulo `end` driven by the call-site conditions; calling neither inc() nor dec() = free running
+        ctor, E, rv, bind, scope, ldk = p
+        bi, bd = bind & 1, bind & 2
+        if ctor == 0:
+            e = E; w = e.bit_length() if e & (e - 1) else e.bit_length() - 1
+        else:
+            w = E; e = 1 << w
+        prev_expect = rv
+        for t, cyc in enumerate(ops):
+            f = cyc.split(","); inc, dec, en, ld = int(f[0]), int(f[1]), int(f[2]), int(f[3]); lv = int(f[4], 16)
+            if ctor == 2: e = int(f[5], 16)
+            i, dd = [(inc, dec), (1, 1), (en & inc, en & dec), (en & inc, (1 - en) & dec), (en, en), (inc | en, dec | en)][scope]
+            i = i if bi else 0; dd = dd if bd else 0
+            if not bi and not bd: i = 1
+            load = [0, ld, ld, en & ld][ldk]; lval = rv if ldk == 2 else lv
+            o = out[t].split(","); v = int(o[0], 16)
+            if prev_expect is not None and v != prev_expect: return False
+            if 0 < e <= (1 << w) and v < e:
+                nxt = lval if load else (v + 1) % e if i and not dd else (v - 1) % e if dd and not i else v
+                if (int(o[1]), int(o[2]), int(o[3])) != (int(v == e - 1), int(v == 0), int(nxt == 0)): return False
+                prev_expect = nxt
+            else:
+                prev_expect = None
+        return True
+    if prim == "adder": return O(0) == sum(int(o, 16) for o in ops) & ((1 << p[0]) - 1)
+    if prim == "thermom": return O(0) == ((1 << I(0)) - 1) & ((1 << p[1]) - 1)
+    if prim == "crcmx":
+        cw = p[0]; poly, init, xo, rd, rc = I(0), I(1), I(2), I(3), I(4)
+        reg = init; mask = (1 << cw) - 1
+        for dw, wd in zip(p[1:], [int(o, 16) for o in ops[5:]]):
+            for bt in [(wd >> k) & 1 for k in (range(dw) if rd else range(dw - 1, -1, -1))]:
+                top = ((reg >> (cw - 1)) & 1) ^ bt
+                reg = (reg << 1) & mask
+                if top: reg ^= poly
+        res = reg ^ xo
+        return O(0) == (reflect(res, cw) if rc else res)
     if prim == "updown":
         # definition: value + increment - decrement, clamped to [0, 2^w - 1]
         w, rv = p; top = (1 << w) - 1
@@ -521,11 +616,13 @@ def classify(prim, params, ops):
     cls = "w<=16" if w <= 16 else "w in 17..64" if w <= 64 else "w>64"
     if prim in ("pritree", "pritreereg"):
         oc = "tree depth %d" % petree_depth(params[1], params[0]) + ("" if w & (w - 1) else " pow2-width")
+    elif prim == "cntv":
+        oc = ["free running", "inc only", "dec only", "inc+dec"][params[3]] + " scope %d" % params[4]
     elif prim in ("cntend", "cntw", "cntdyn", "updown", "ldivp"):
         oc = "trace"
     elif prim in ("ldiv", "sldiv") and len(vals) == 2:
         oc = "den=0" if vals[1] == 0 else "num<den" if vals[0] < vals[1] else "num=den" if vals[0] == vals[1] else "num>den"
-    elif len(vals) >= 1 and prim not in ("crcst", "crcwk", "csa"):
+    elif len(vals) >= 1 and prim not in ("crcst", "crcwk", "csa", "crcmx", "adder"):
         x = vals[0]
         oc = "zero" if x == 0 else "one-hot" if x & (x - 1) == 0 else "all-ones" if x == (1 << w) - 1 else "generic"
     else:
@@ -637,7 +734,7 @@ def main():
         "pipelined variants: registers without reset are modelled as 'unknown until loaded' (model prints ?, accepted as wildcard while the pipeline fills); longDivision pipelining is modelled as a pure delay of #{i in 2..numW | i % steps == 0} cycles (retiming-balanced)",
         "size_t wrap of utils::nextPow2 / Log2C not modelled (sizes < 2^63); zero-width operands and encoder(size 1) are rejected by the frontend at design time and are outside the model",
         "two deviations are recorded in KNOWN_FINDINGS.txt, proved in Coq as *_refuted (the model is faithful to them) and detected on the implementation by the oracle on every run: priorityEncoderTree(registerStep=true) latency imbalance, counterUpDown with inc&dec at a bound; any other deviation is a violation",
-        "rejected inputs (design-time errors of the frontend, outside the model): longDivision with a 1-bit SInt numerator, encoder of a 1-bit operand, min/max with operands of different widths, crc with polynomial wider than max(remainder, data)",
+        "rejected inputs (design-time errors of the frontend, outside the model): Counter(BitWidth 64) (ctrW.count() overflows), longDivision with a 1-bit SInt numerator, encoder of a 1-bit operand, min/max with operands of different widths, crc with polynomial wider than max(remainder, data)",
     ]
     if forbidden:
         res["ok"] = False
